@@ -20,6 +20,20 @@ for d in sorted(os.listdir(root)):
             elif rc == '0': clean.append(chk)
             else: other.append(chk + ':exit' + rc)
     prop = re.match(r'(C\d+)', d).group(1)
+    # final regression: the own check re-run on the final machinery
+    own_final = None
+    ofile = os.path.join(root, 'own-%s.txt' % d)
+    if os.path.exists(ofile):
+        for line in open(ofile):
+            m = re.match(r'(\S+) check=(C\d+) exit=(\d+) (.*?) \| (.*)', line)
+            if m and m.group(2) == prop:
+                own_final = (m.group(3) == '1')
+                if own_final:
+                    first[prop] = m.group(5).strip()[:240]
+                    if prop not in caught: caught.append(prop); caught.sort()
+                    if prop in clean: clean.remove(prop)
+                elif m.group(3) == '0' and prop in caught:
+                    caught.remove(prop); clean.append(prop)
     confirm = open(os.path.join(p, 'confirm.txt')).read().strip() if os.path.exists(os.path.join(p, 'confirm.txt')) else ''
     meta = {
         'breaks_property': prop,
@@ -30,6 +44,7 @@ for d in sorted(os.listdir(root)):
         'how_confirmed': 'tools/seedconfirm.sh in the sub-agent\'s scratch worktree: existing suite (cargo test --workspace --no-fail-fast --offline) with the change; demo with the change; demo without the change',
         'checks_run': 'tools/seedrun.sh %s : git -C /repo apply patch.diff; ./check <id> quick for all 16 claimed properties; git -C /repo checkout -- .' % d,
         'own_property_check_caught_it': prop in caught,
+        'own_check_rerun_on_final_machinery': own_final,
         'checks_that_reported_a_violation': caught,
         'checks_that_stayed_quiet': clean,
         'other_exits': other,
